@@ -107,11 +107,13 @@ def get_func_in_mro(obj: Any, code: CodeType) -> Optional[Callable[..., Any]]:
     val = inspect.getattr_static(obj, code.co_name, None)
     if val is None:
         return None
-    if isinstance(val, (classmethod, staticmethod)):
+    # val is an arbitrary class attribute: test type(val), isinstance() may consult val.__class__
+    typ = type(val)
+    if issubclass(typ, (classmethod, staticmethod)):
         cand = val.__func__
-    elif isinstance(val, property) and (val.fset is None) and (val.fdel is None):
+    elif issubclass(typ, property) and (val.fset is None) and (val.fdel is None):
         cand = cast(Callable[..., Any], val.fget)
-    elif cached_property and isinstance(val, cached_property):
+    elif cached_property and issubclass(typ, cached_property):
         cand = val.func
     else:
         cand = cast(Callable[..., Any], val)
